@@ -627,8 +627,13 @@ def g_off_rules(ctx):
     prog = ctx.prog
     from ..query import iter_chain
     tn = prog.one_fn(r"^ast_grep_config::rule_collection::RuleCollection::<L>::try_new$")
-    sw = [bi for bi in tn.live_blocks if (si := tn.switch_info(bi)) and si.get("enum") and si["enum"].endswith("::Severity") and "Off" in si["arms"]]
-    coll_ok = bool(sw)
+    # every storing site of try_new lies on the not-Off side of a severity test (rulecoll RC1)
+    from . import rulecoll
+    from ..core import Ctx
+    sub = Ctx("C11", ctx.tier, prog)
+    rulecoll.rc1(sub, "RC")
+    coll_bad = [o["key"] for o in sub.obligations if not o["ok"]]
+    coll_ok = bool(sub.obligations) and not coll_bad
     sites, bad = 0, []
     for f in prog.fns.values():
         if not f.crate.startswith("ast_grep") or f.crate in ("ast_grep_napi", "ast_grep_py"):
@@ -650,7 +655,7 @@ def g_off_rules(ctx):
                 bad.append(f.id)
     ok = coll_ok and sites >= 3 and not bad
     return ok, ("RuleCollection::try_new skips Severity::Off; %d CombinedScan::new sites take their rules from a RuleCollection or filter on severity" % sites) if ok else \
-        "a CombinedScan is built from rules that may include severity off (%s; RuleCollection filters: %s): a match of such a rule reaches the printers' unreachable!()" % (bad, coll_ok)
+        "a CombinedScan is built from rules that may include severity off (%s; RuleCollection filters every stored rule: %s %s): a match of such a rule reaches the printers' unreachable!()" % (bad, coll_ok, coll_bad)
 
 
 @guard("deserialize_rule_nonempty")
